@@ -64,5 +64,5 @@ Emitter == (Emit /\ Running /\ pos = 0 /\ live) =>
                                                         frames |-> [q \in 1..(Len(buf) + 1) |-> IF sh THEN {FrameAtOcc(Rest(buf, q - 1), kk) : kk \in Occurrences(Rest(buf, q - 1))} ELSE {FrameOf(Rest(buf, q - 1), FALSE, "parse")}]])>>)
    /\ sh => PrintT(<<"REPLAY", ToJson([ev |-> [op |-> "session", api |-> "consume", buf |-> buf, sh |-> sh, flt |-> None],
                                        expect |-> RunSession(buf, 0, sh, None, "consume", 64),
-                                       frames |-> [q \in 1..(Len(buf) + 1) |-> {FrameOf(Rest(buf, q - 1), sh, "consume")}]])>>)
+                                       frames |-> [q \in 1..(Len(buf) + 1) |-> {FrameAtOcc(Rest(buf, q - 1), kk) : kk \in Occurrences(Rest(buf, q - 1))}]])>>)
 =============================================================================
